@@ -80,6 +80,15 @@ var propCfgs = []*propCfg{
 		Stub:     []string{"the terminal: a byte source implementing the decoder's existing byteReaderWithTimeout interface, delivering bytes at tape-chosen fake times (the real poll(2)-based file reader is not exercised)"},
 		Assumptions: []string{"time is the fake clock of a testing/synctest bubble; gaps are never exactly equal to a time-out", "the poll/EINTR loop of the real file reader (bReader) is outside this check"},
 	},
+	{
+		ID: "C32", Level: "exploration", SimEngine: "simgo",
+		Quick:    tierCfg{Seeds: 8000, Secs: 60, Batch: 200},
+		Thorough: tierCfg{Seeds: 500000, Secs: 600, Batch: 500},
+		Rule:     "one evaluation = the real editor loop plus 1..4 producer goroutines issuing tape-generated sequences of Input (unique events; some handlers request redraws or return from inside the loop), Redraw(full/partial) and Return, and a closer, under one seeded schedule; flood cases send several hundred events to fill the 128-slot buffer; oracle over the recorded invoke/complete steps of every call and callback; distinct = distinct interleaving signature; non-trivial = at least one scheduling choice",
+		Real:     []string{"pkg/cli loop: Run, Input, Redraw, Return, HasReturned, extractRedrawFull (via an export shim generated into the scratch copy)"},
+		Stub:     []string{"the handle and redraw callbacks (harness functions that record and yield)", "terminal, editor widgets: not involved"},
+		Assumptions: simgoAssumptions,
+	},
 }
 
 func findProp(id string) *propCfg {
